@@ -5,6 +5,7 @@ import (
 	"fmt"
 	"io"
 	"os"
+	"os/exec"
 	"runtime"
 	"strings"
 	"sync"
@@ -112,6 +113,9 @@ func racepassMain(tier string) {
 			return sb.String()
 		},
 	}
+	// cold start: fresh processes in which the first use of the package's lazily built shared
+	// state (the zstd decoder behind NewSerializer) happens in many goroutines at once
+	coldRuns, coldMism := racepassColdParent(small, render, tier)
 	// reference results, computed alone
 	want := map[[2]int]string{}
 	for o := range ops {
@@ -121,36 +125,159 @@ func racepassMain(tier string) {
 	}
 	n := 4 * runtime.GOMAXPROCS(0)
 	var iters, mism atomic.Int64
-	var wg sync.WaitGroup
-	deadline := time.Now().Add(dur)
 	var first sync.Once
+	phase := func(dur time.Duration, label string) {
+		var wg sync.WaitGroup
+		deadline := time.Now().Add(dur)
+		for g := 0; g < n; g++ {
+			wg.Add(1)
+			go func(g int) {
+				defer wg.Done()
+				k := g
+				for time.Now().Before(deadline) {
+					o := k % len(ops)
+					id := (k / len(ops)) % 15
+					got := ops[o](id)
+					iters.Add(1)
+					if got != want[[2]int{o, id}] {
+						mism.Add(1)
+						first.Do(func() {
+							fmt.Printf("racepass-mismatch (%s): op %d id %d: got %.300s want %.300s\n", label, o, id, got, want[[2]int{o, id}])
+						})
+					}
+					k += 7
+					if k%13 == 0 {
+						runtime.Gosched()
+					}
+				}
+			}(g)
+		}
+		wg.Wait()
+	}
+	if hasAVX512 {
+		// both stage-1 kernels: the selection is process-wide CPU-feature state, switched
+		// while no goroutine of the pass is running
+		phase(dur/2, "AVX-512 kernel")
+		setKernel(false)
+		phase(dur/2, "AVX2 kernel")
+		setKernel(true)
+	} else {
+		phase(dur, "AVX2 kernel")
+	}
+	iters.Add(coldRuns)
+	mism.Add(coldMism)
+	fmt.Printf("racepass: %d goroutine-programs run, %d mismatches\n", iters.Load(), mism.Load())
+	if mism.Load() > 0 {
+		os.Exit(1)
+	}
+}
+
+// racepassColdParent writes blobs of the small documents to a scratch file and runs fresh
+// child processes (same -race binary) whose goroutines all start with NewSerializer +
+// Deserialize of one of them; the child prints one line per goroutine.
+func racepassColdParent(small []string, render func(*simdjson.ParsedJson, error) string, tier string) (runs, mism int64) {
+	var blobs [][]byte
+	var want []string
+	for _, d := range small {
+		pj, err := simdjson.Parse([]byte(d), nil)
+		if err != nil {
+			fmt.Println("racepass-mismatch: cannot parse", d)
+			return 0, 1
+		}
+		s := simdjson.NewSerializer()
+		s.CompressMode(simdjson.CompressBest)
+		blobs = append(blobs, append([]byte(nil), s.Serialize(nil, *pj)...))
+		want = append(want, strings.ReplaceAll(render(pj, nil), "\n", " "))
+	}
+	f, err := os.CreateTemp(os.Getenv("VERIF_SCRATCH"), "coldblobs")
+	if err != nil {
+		fmt.Println("racepass-mismatch: scratch file:", err)
+		return 0, 1
+	}
+	defer os.Remove(f.Name())
+	for _, b := range blobs {
+		fmt.Fprintf(f, "%x\n", b)
+	}
+	f.Close()
+	n := 8
+	if tier == "thorough" {
+		n = 40
+	}
+	for i := 0; i < n; i++ {
+		out, _ := exec.Command(os.Args[0], "racepass-cold", f.Name()).CombinedOutput()
+		text := string(out)
+		if strings.Contains(text, "WARNING: DATA RACE") {
+			fmt.Println(text) // counted by the driver
+		}
+		seen := 0
+		for _, l := range strings.Split(text, "\n") {
+			var id int
+			if !strings.HasPrefix(l, "cold ") {
+				continue
+			}
+			rest := strings.TrimPrefix(l, "cold ")
+			sp := strings.IndexByte(rest, ' ')
+			fmt.Sscanf(rest[:sp], "%d", &id)
+			seen++
+			runs++
+			if rest[sp+1:] != want[id%len(want)] {
+				mism++
+				if mism == 1 {
+					fmt.Printf("racepass-mismatch: cold start, goroutine %d: got %.300s want %.300s\n", id, rest[sp+1:], want[id%len(want)])
+				}
+			}
+		}
+		if seen == 0 {
+			mism++
+			fmt.Printf("racepass-mismatch: cold-start child produced no results: %.600s\n", text)
+		}
+	}
+	return runs, mism
+}
+
+func racepassColdChild(file string) {
+	raw, err := os.ReadFile(file)
+	if err != nil {
+		fmt.Println("cannot read", file)
+		os.Exit(3)
+	}
+	var blobs [][]byte
+	for _, l := range strings.Fields(string(raw)) {
+		b := make([]byte, len(l)/2)
+		fmt.Sscanf(l, "%x", &b)
+		blobs = append(blobs, b)
+	}
+	n := 4 * runtime.GOMAXPROCS(0)
+	res := make([]string, n)
+	start := make(chan struct{})
+	var wg sync.WaitGroup
 	for g := 0; g < n; g++ {
 		wg.Add(1)
 		go func(g int) {
 			defer wg.Done()
-			k := g
-			for time.Now().Before(deadline) {
-				o := k % len(ops)
-				id := (k / len(ops)) % 15
-				got := ops[o](id)
-				iters.Add(1)
-				if got != want[[2]int{o, id}] {
-					mism.Add(1)
-					first.Do(func() {
-						fmt.Printf("racepass-mismatch: op %d id %d: got %.300s want %.300s\n", o, id, got, want[[2]int{o, id}])
-					})
+			defer func() {
+				if r := recover(); r != nil {
+					res[g] = fmt.Sprint("PANIC ", r)
 				}
-				k += 7
-				if k%13 == 0 {
-					runtime.Gosched()
-				}
+			}()
+			<-start
+			out, err := simdjson.NewSerializer().Deserialize(blobs[g%len(blobs)], nil)
+			if err != nil {
+				res[g] = "ERR " + err.Error()
+				return
 			}
+			docs, werr := walkFlat(out)
+			if werr != nil {
+				res[g] = "UNREADABLE " + werr.Error()
+				return
+			}
+			res[g] = renderDocs(docs, renderExact)
 		}(g)
 	}
+	close(start)
 	wg.Wait()
-	fmt.Printf("racepass: %d goroutine-programs run, %d mismatches\n", iters.Load(), mism.Load())
-	if mism.Load() > 0 {
-		os.Exit(1)
+	for g, r := range res {
+		fmt.Printf("cold %d %s\n", g, strings.ReplaceAll(r, "\n", " "))
 	}
 }
 
